@@ -33,8 +33,10 @@ import (
 // ---------------------------------------------------------------------------------------------- behaviours
 
 type Fault struct {
-	Kind string `json:"kind"` // none | stmt | ctx | commit | real (absolute statement index, thorough sweeps)
+	Kind string `json:"kind"` // none | stmt | ctx | commit | read | real (absolute statement index, thorough sweeps)
 	At   int    `json:"at"`
+	R    int    `json:"r"` // read: the R-th read after write At-1 fails (see authfault.go)
+	Frac int    `json:"frac"` // read: > 0: the read at Frac/1000 of all reads of the operation fails (counted on the twin first)
 }
 
 type Ev struct {
@@ -385,6 +387,10 @@ type kindDriver interface {
 	// realStmt maps a model statement number of this block to a real statement index.
 	realStmt(op Op, at int, rng *rand.Rand) int
 	dbPath() string
+	// the twin: a second real store fed with exactly the surviving history
+	rebuildTwin() error
+	twinPath() string
+	twinProcess(op Op) error
 	pool() *sql.DB
 	prepare(op Op)
 	kindSeed() int64
@@ -489,6 +495,20 @@ func (r *runner) runOne(idx int, b Behaviour, mk func(dir string, rng *rand.Rand
 					cancel()
 					return err
 				}
+			case "read":
+				if op.Fault.Frac > 0 {
+					n, err := probeReads(kd, op)
+					if err != nil {
+						cancel()
+						return fmt.Errorf("probe: %w", err)
+					}
+					armAuth(kd.dbPath(), 0, 1+op.Fault.Frac*n/1000)
+				} else if op.Fault.R < 0 { // -R-th read of the whole operation
+					armAuth(kd.dbPath(), 0, -op.Fault.R)
+				} else {
+					real = kd.realStmt(op, op.Fault.At, r.rng)
+					armAuth(kd.dbPath(), real, op.Fault.R)
+				}
 			case "ctx":
 				real = kd.realStmt(op, op.Fault.At, r.rng)
 				if err := inj.arm(real, true); err != nil {
@@ -513,6 +533,9 @@ func (r *runner) runOne(idx int, b Behaviour, mk func(dir string, rng *rand.Rand
 			}
 			ev := tr.M{"ev": "process", "num": op.Num, "evs": kd.describe(op), "fault": op.Fault.Kind, "at": real, "res": res,
 				"ms": time.Since(t0).Milliseconds(), "busy": op.Busy}
+			if fired, what := disarmAuth(); op.Fault.Kind == "read" {
+				ev["fired"], ev["what"] = fired, what
+			}
 			if perr != nil {
 				ev["err"] = fmt.Sprintf("%.160s", perr.Error())
 			}
